@@ -18,13 +18,14 @@ def entry(pid, engine, test=None, level="exploration", technique="", quick=None,
                 level_text=level_text, level_note=level_note, env=env or {}, title=title)
 
 
-CHECKS = [
-    entry("C32", "small",
-          technique="property-based testing (rapid): model-based stateful histories vs reference TTL model under a fake clock",
-          quick=dict(checks=30000, budget_s=30),
-          thorough=dict(checks=50000, shards=16, budget_s=300),
-          level_text="Generated add/remove/advance/query histories aimed at exact expiry instants, every query kind compared with a reference model after every step. Exploration: finds disagreement between query kinds at any instant the generator reaches; does not prove absence.",
-          level_note="Trusts clockwork.FakeClock; containers are driven through their exported API only; concurrency of the containers is not explored here."),
-]
 
+import glob, os
+
+CHECKS = []
+for _f in sorted(glob.glob(os.path.join(os.path.dirname(os.path.abspath(__file__)), "registry.d", "*.py"))):
+    _ns = {"entry": entry}
+    exec(compile(open(_f).read(), _f, "exec"), _ns)
+    CHECKS += _ns.get("CHECKS", [])
+
+CHECKS.sort(key=lambda c: c["id"])
 BY_ID = {c["id"]: c for c in CHECKS}
